@@ -176,3 +176,26 @@ Proof.
   - intros x. unfold read_labels, check_cell, size. rewrite Hd, Gl. reflexivity.
   - apply find_agree_of_maps; [exact Hk | exact N3 | exact Gl].
 Qed.
+
+(* ------------------------------------------------------------------ the text reader on ANY conforming file *)
+(* TextArchive::from_bytes on a file that conforms to the bin-archive format with content c reads c: whatever tool wrote
+   the file (table order, string placement, extra strings or pointers the text reader never looks at) *)
+Theorem text_file_reads_content fmt e f c : conforms e f c ->
+  TextFormat.from_bytes fmt e f = TextFormat.from_archive fmt (content_archive e c).
+Proof.
+  intros Hc. destruct (parsed_obs_equal e f c Hc) as (a & Hp & _ & Ho).
+  unfold TextFormat.from_bytes. rewrite Hp. cbn [bind]. apply from_archive_obs_equal. exact Ho.
+Qed.
+
+(* ... in particular a file whose data region is the title cell followed by the message cells of t and whose label map
+   puts [key] on every message offset is parsed to t - not only the image this writer produces *)
+Theorem text_parse_any_conforming_file fmt e f c t : conforms e f c -> wf_text fmt t ->
+  c_data c = a_data (TextFormatWrite.text_image fmt e t) ->
+  (forall x, am_get x (c_labels c) = am_get x (a_labels (TextFormatWrite.text_image fmt e t))) ->
+  TextFormat.from_bytes fmt e f = Ok (parsed fmt t).
+Proof.
+  intros Hc Hw Hd Hl. rewrite (text_file_reads_content fmt e f c Hc).
+  rewrite <- (from_archive_text_image fmt e t Hw). apply from_archive_congr.
+  - exact Hd.
+  - intros x. unfold read_labels, check_cell, size. cbn [content_archive a_data a_labels]. rewrite Hd, Hl. reflexivity.
+Qed.
